@@ -2033,6 +2033,21 @@ def run_atot_case(case, acc):
         except Exception as e:
             acc.viol('atot:%s:%s:%s:raises:%s' % (call, idxtag, tag, type(e).__name__), str(e)[:300], case)
             return
+        # cells VISITED (both problems built, the colouring requested), whatever the verdict will be
+        acc.count('cell:atot/%s' % method)
+        acc.count('cell:atot/decl-%s' % case['decl'])
+        acc.count('cell:atot/chains-%d' % len(case['chains']))
+        if has_idx:
+            acc.count('cell:atot/dv-indices')
+            if len(case['chains']) > 1:
+                acc.count('cell:atot/dv-indices-and-several-chains')
+        if has_cidx:
+            acc.count('cell:atot/con-indices')
+        for nm in ('join', 'idle', 'scaling'):
+            if case.get(nm):
+                acc.count('cell:atot/%s' % nm)
+        if case.get('obj'):
+            acc.count('cell:atot/objective-%s' % case['obj'])
         ncalls = 0
         for pos, call in enumerate(case['calls']):
             if call == 'new-point':
@@ -2096,20 +2111,7 @@ def run_atot_case(case, acc):
             acc.skip('atot-coloring-not-used')
             return
         acc.count('obs:atot-colored-vs-uncolored')
-        acc.count('cell:atot/%s' % method)
-        acc.count('cell:atot/decl-%s' % case['decl'])
-        acc.count('cell:atot/chains-%d' % len(case['chains']))
-        if has_idx:
-            acc.count('cell:atot/dv-indices')
-            if len(case['chains']) > 1:
-                acc.count('cell:atot/dv-indices-and-several-chains')
-        if has_cidx:
-            acc.count('cell:atot/con-indices')
-        for nm in ('join', 'idle', 'scaling'):
-            if case.get(nm):
-                acc.count('cell:atot/%s' % nm)
-        if case.get('obj'):
-            acc.count('cell:atot/objective-%s' % case['obj'])
+        acc.count('obs:atot-colored-vs-uncolored/decl-%s' % case['decl'])
         acc.ok(fingerprint(['atot', method, case.get('form'), case['decl'], case['driver'],
                             [[c['n'], c['m'], (np.array(c['A']) != 0).astype(int).tolist()] for c in case['chains']],
                             case['didx'], case['cidx'], case['obj'], case['join'], case['idle'], case['calls']]),
